@@ -115,6 +115,8 @@ impl<'a, T: 'a> ParseElem<'a> for SliceByRef<'a, T> {
     type Element = &'a T;
 
     fn parse_elem(&'a self, pos: usize) -> RuleResult<&'a T> {
+        #[cfg(ironplc_verif)]
+        dsl::verif::tick();
         match self.0[pos..].first() {
             Some(c) => RuleResult::Matched(pos + 1, c),
             None => RuleResult::Failed,
